@@ -492,6 +492,50 @@ func ZZ_C14_UpdateVsEvict() {
 	vfAssert("never-older-than-last-completed-set", err == nil && vfImplies(hit, v == 102))
 }
 
+// ZZ_C14_LoadingVariants: the loading Get of a hybrid cache follows the same rules: racing a Set it never
+// leaves the older secondary copy in place of the completed Set, and after the newer value has expired it runs
+// the loader instead of serving the older copy.
+func ZZ_C14_LoadingVariants() {
+	h := zzHybNew(1, false)
+	s := h.s
+	ls := NewLoadingStore(s)
+	loads := 0
+	ls.Loader(func(ctx context.Context, key uint64) (Loaded[uint64], error) {
+		loads++
+		return Loaded[uint64]{Value: 900 + uint64(loads), Cost: 1}, nil
+	})
+	s.Set(1, 101, 1, 0)
+	h.settle()
+	s.Set(2, 201, 1, 0) // key 1 demoted
+	h.settle()
+	if vfConfig("MODE", 0) == 0 {
+		vfSetPreemptions(vfConfig("PRE", 1))
+		done := make(chan int, 2)
+		var gv uint64
+		go func() { gv, _ = ls.Get(context.Background(), 1); done <- 1 }()
+		go func() { s.Set(1, 102, 1, 0); done <- 1 }()
+		<-done
+		<-done
+		vfSetPreemptions(0)
+		vfReach("done")
+		vfAssert("racing-loading-get-sees-old-or-new", gv == 101 || gv == 102)
+		v, hit, err := s.GetWithSecodary(1)
+		vfAssert("completed-set-not-undone-by-racing-loading-get", err == nil && vfImplies(hit, v == 102))
+		return
+	}
+	s.Set(1, 102, 1, time.Duration(1<<29)) // newer value with a deadline, memory only
+	h.settle()
+	d := vfI64("advance")
+	vfAssume(d >= 0)
+	vfAssume(d <= 1<<31)
+	vfClockSet(h.origin + d)
+	s.timerwheel.clock.RefreshNowCache()
+	vfReach("done")
+	v, err := ls.Get(context.Background(), 1)
+	vfAssert("loading-get-never-serves-the-older-copy", err == nil && v != 101)
+	vfAssert("loading-get-serves-live-value-or-loads", vfIte64(d < 1<<29, 1, 0) == vfIte64(v == 102, 1, 0))
+}
+
 // ZZ_C14_DeleteVsGet: a hybrid Delete of a key that lives in the secondary tier races a hybrid Get of the same key.
 func ZZ_C14_DeleteVsGet() {
 	h := zzHybNew(1, false)
